@@ -370,7 +370,10 @@ theorem mkTableDirect_inv (a : CtorArgs) (specs : List FieldSpec) (ha : a.fields
 /-- The states a table goes through: constructed from a format string (`new`) or from column objects
 (`direct`), printed, re-formatted with any string, re-constructed from any string, or built with
 `fmt_obj=` from the format of any other reachable table with the same fields (`fromObj`: siblings
-made from one format object, with their own records, header, footer, limits and skipped columns). -/
+made from one format object, with their own records, header, footer, limits and skipped columns);
+`removeFresh`: `table.remove_columns(names)` on a table whose widths are not negotiated. (Removing
+columns from a *printed* table is left out on purpose: the widths stay as negotiated for the rows
+that were visible with the removed break-by column — see the report.) -/
 inductive Reach : CtorArgs → Tbl → Prop where
   | new (a : CtorArgs) (t : Tbl) : mkTable a = .ok t → Reach a t
   | direct (a : CtorArgs) (cs : List ColSpec) (lims : Option Int × Option Int) (t : Tbl) :
@@ -379,6 +382,8 @@ inductive Reach : CtorArgs → Tbl → Prop where
   | set (a : CtorArgs) (t t' : Tbl) (s : List Char) : Reach a t → applySetter t s = .ok t' → Reach a t'
   | ctor (a : CtorArgs) (t t' : Tbl) (s : List Char) : Reach a t →
       mkTable { a with fmt := some s, limits := Option.none, skip := Option.none } = .ok t' → Reach a t'
+  | removeFresh (a : CtorArgs) (t : Tbl) (names : List (List Char)) : Reach a t →
+      (∀ c ∈ t.fmt.cols, c.width = Option.none) → t.fmt.anySkipped = Option.none → Reach a (removeCols t names)
   | fromObj (b a : CtorArgs) (u : Tbl) (lims : Option (Option Int × Option Int))
       (skip : Option (List (List Char))) : Reach b u → a.fields = b.fields →
       Reach a (mkTableFromFmt u.fmt a.records lims skip a.header a.footer)
@@ -394,6 +399,14 @@ theorem reach_inv (a : CtorArgs) (specs : List FieldSpec) (ha : a.fields = some 
     exact inv_congr_args a { a with fmt := some s, limits := Option.none, skip := Option.none } specs t'
       (mkTable_inv { a with fmt := some s, limits := Option.none, skip := Option.none } specs ha t' hm)
       rfl rfl rfl
+  | removeFresh a t names _ hw hs ih =>
+    have hi := ih ha
+    have hsub : ∀ c ∈ (removeCols t names).fmt.cols, c ∈ t.fmt.cols := by
+      intro c hc; simp only [removeCols] at hc; exact (List.mem_filter.mp hc).1
+    exact ⟨hi.nodup, hi.records_eq, hi.header_eq, hi.footer_eq, hi.fields_eq,
+      fun c hc => hi.colsOk c (hsub c hc),
+      widthsFaithful_of_fresh _ (fun c hc => hw c (hsub c hc)),
+      skipFaithful_of_none _ hs⟩
   | fromObj b a u lims skip _ hab ih =>
     have hu := ih (by rw [← hab]; exact ha)
     exact fromFmt_inv a specs u.fmt hu.nodup hu.fields_eq hu.colsOk lims skip
